@@ -236,6 +236,16 @@ def run(E: Engine, rep: Report, tier: str) -> dict:
     # _process_eom_parameters validates the on- and the off-pulse
     flp = E.flow(pep)
     vcalls = list(_calls_to(E, flp, {ch_vp.qualname, dmm_vp.qualname}))
+    # the off pulse that is validated carries the off-detuning that was computed (and is returned for scheduling)
+    Sp_ = _S(E, pep)
+    offs = []
+    for l in Sp_.calls("validate_pulse"):
+        pu = _arg(l, 0, "pulse")
+        if pu is not None and pu[0] == "call" and len(pu[2]) >= 3 and pu[2][1][0] == "const" and float(pu[2][1][1]) == 0.0:
+            offs.append(pu[2][2])
+    comp = [t for t in _sym.subterms(Sp_.ret) if t[0] == "item" and t[2] == 0 and t[1][0] == "call" and t[1][1][0] == "attr" and t[1][1][2] == "calculate_detuning_off"]
+    ok_off = bool(offs) and bool(comp) and all(any(_sym.contains(o, c) for c in comp) for o in offs)
+    rep.check(ok_off, "PASS", "Sequence._process_eom_parameters|validated-off-pulse-is-the-computed-one", "the zero-amplitude pulse that is validated carries the detuning_off chosen by calculate_detuning_off (the value returned for scheduling)", f"the off pulse validated in _process_eom_parameters carries {[_sh(o, 60) for o in offs]}, not the computed detuning_off that is returned and scheduled: an off-detuning beyond max_abs_detuning passes", E.where(pep))
     rep.check(len(vcalls) >= 2, "PASS", "Sequence._process_eom_parameters|validates-on-and-off-pulse", f"{len(vcalls)} validate_pulse calls", "the EOM on/off pulses are no longer both validated", E.where(pep))
     # enable_eom's buffer pulse: duration through adjust_duration, literal zero amplitude
     en = E.method(SCHED, "enable_eom")
